@@ -17,7 +17,9 @@ pub fn run(ctx: &Ctx) -> Option<Report> {
         "C13" => super::p13::run(ctx),
         "C14" => super::p14::run(ctx),
         "C16" => super::p16::run(ctx),
+        "C17" => super::p17::run(ctx),
         "C18" => super::p18::run(ctx),
+        "C20" => super::p20::run(ctx),
         _ => return None,
     })
 }
@@ -37,7 +39,9 @@ pub fn replay(ctx: &Ctx, case: &Value) -> Option<Report> {
         "C13" => super::p13::replay(ctx, case),
         "C14" => super::p14::replay(ctx, case),
         "C16" => super::p16::replay(ctx, case),
+        "C17" => super::p17::replay(ctx, case),
         "C18" => super::p18::replay(ctx, case),
+        "C20" => super::p20::replay(ctx, case),
         _ => return None,
     })
 }
